@@ -327,7 +327,14 @@ Definition partition_ok (track : bool) (muts : list (N * list (N * val))) (p : p
   && forallb (fun e => (length (filter (N.eqb e) flat) =? 1)%nat) flat
   && match muts with
      | [] => if track then match p with [[]] => true | _ => false end else match p with [] => true | _ => false end
-     | _ => forallb (fun m => match m with [] => false | _ => true end) p
+     | _ =>
+       (* only the LAST message of a tick may have an empty body: the split loop also walks over relation
+          groups without mutated entities (empty chunks); a split at such a chunk starts a message that
+          stays empty when nothing but empty chunks follows *)
+       match rev p with
+       | [] => false
+       | _ :: front => forallb (fun m => match m with [] => false | _ => true end) front
+       end
      end.
 
 Record client_out := mkCO {
